@@ -285,9 +285,37 @@ def draw_target(rng, margin, band_bias=False):
   return None  # raw random offset
 
 
-def place_pairs(mjm, info, pairs, rng, p_axis=0.25, same_point=0.0, band_bias=False):
+def inner_point(mjm, g, rng):
+  """A point (geom frame) strictly inside geom g, away from its centre and from its surface: for a capsule / cylinder a
+  point near the axis, for a box a point of the inner 70% box (nearest face generic), for a mesh a shrunk vertex."""
+  t, s = GEOM_NAMES[int(mjm.geom_type[g])], np.asarray(mjm.geom_size[g], dtype=np.float64)
+  v = rng.normal(size=3)
+  v /= np.linalg.norm(v)
+  f = rng.uniform(0.15, 0.6)
+  if t == "sphere":
+    return v * f * s[0]
+  if t == "capsule":
+    return np.array([0.0, 0.0, rng.uniform(-1.0, 1.0) * s[1]]) + v * f * s[0]
+  if t == "cylinder":
+    return np.array([v[0] * f * s[0], v[1] * f * s[0], rng.uniform(-0.7, 0.7) * s[1]])
+  if t == "ellipsoid":
+    return v * f * s
+  if t == "box":
+    return rng.uniform(-0.7, 0.7, size=3) * s
+  if t == "mesh":
+    m = int(mjm.geom_dataid[g])
+    a, k = int(mjm.mesh_vertadr[m]), int(mjm.mesh_vertnum[m])
+    return 0.4 * np.asarray(mjm.mesh_vert[a + int(rng.integers(k))], dtype=np.float64)  # the mesh frame's origin is the centroid
+  raise ValueError(t)
+
+
+def place_pairs(mjm, info, pairs, rng, p_axis=0.25, same_point=0.0, band_bias=False, deep=0.0):
   """qpos (float32-rounded, float64 array) placing, for every (a, b) in pairs, body b's geom at a drawn signed distance
-  from a (a = body index, or 'plane' / 'hfield' for the static geoms). Bodies not mentioned stay far apart."""
+  from a (a = body index, or 'plane' / 'hfield' for the static geoms). Bodies not mentioned stay far apart.
+
+  deep (default off, draws nothing when 0): probability that a pair is instead put into DEEP penetration with generic
+  rotations: the centre of one geom coincides with an inner point of the other (target 'deep:1in2' / 'deep:2in1'), below
+  a plane: the geom's centre lies under the plane ('deep:plane')."""
   mjd = mujoco.MjData(mjm)
   nb = len(info["body_geom"])
   qpos = np.zeros(mjm.nq)
@@ -327,6 +355,28 @@ def place_pairs(mjm, info, pairs, rng, p_axis=0.25, same_point=0.0, band_bias=Fa
           u += rng.normal(size=3) * 0.3
       u /= np.linalg.norm(u)
       tlo, thi = 0.0, info["rbound"][a] + rb + 0.3
+    if deep and a != "hfield" and rng.random() < deep:
+      # deep penetration, generic (non-symmetric) rotations: never axis-aligned
+      qb = rquat(rng)
+      if a != "plane":
+        _set_body_pose(qpos, a, base, rquat(rng))
+      _set_body_pose(qpos, b, base, qb)
+      mjd.qpos[:] = qpos
+      mujoco.mj_kinematics(mjm, mjd)
+      xa, xb = np.array(mjd.geom_xpos[ga]), np.array(mjd.geom_xpos[gb])
+      Ra, Rb = np.array(mjd.geom_xmat[ga]).reshape(3, 3), np.array(mjd.geom_xmat[gb]).reshape(3, 3)
+      if a == "plane":
+        h = float(nz @ (xb - xa))
+        shift = -nz * (h + rng.uniform(0.05, 0.5) * minsize(mjm, gb))  # the geom's centre lies under the plane
+        targets.append("deep:plane")
+      elif rng.random() < 0.5:
+        shift = xa + Ra @ inner_point(mjm, ga, rng) - xb  # centre of geom2 strictly inside geom1
+        targets.append("deep:2in1")
+      else:
+        shift = xa - (xb + Rb @ inner_point(mjm, gb, rng))  # centre of geom1 strictly inside geom2
+        targets.append("deep:1in2")
+      _set_body_pose(qpos, b, base + shift, qb)
+      continue
     margin = float(mjm.geom_margin[ga] + mjm.geom_margin[gb] + mjm.geom_gap[ga] + mjm.geom_gap[gb])
     tgt = draw_target(rng, margin, band_bias)
     if a == "hfield":
@@ -407,7 +457,7 @@ def make_case_model(case, rng):
   kind = case["kind"]
   flags = dict(FLAGSETS[case["flags"]])
   nworld = 3
-  if kind == "pair":
+  if kind in ("pair", "deep"):  # "deep": the same scene, pairs placed in deep penetration (place_pairs(deep=1))
     t1, t2 = case["pair"]
     K = 5
     opts = {"flags": flags, "cone": ("pyramidal", "elliptic")[int(rng.integers(2))], "p_margin": 0.35, "p_params": 0.3}
@@ -425,8 +475,8 @@ def make_case_model(case, rng):
     mjm = gen.compile_xml(xml)
     if mjm is None:
       return None
-    qs = [place_pairs(mjm, info, pairs, rng)[0] for _ in range(nworld)]
-    return xml, mjm, qs, [f"pairscene:{t1}-{t2}", "flags:" + case["flags"], "cone:" + opts["cone"]]
+    qs = [place_pairs(mjm, info, pairs, rng, deep=1.0 if kind == "deep" else 0.0)[0] for _ in range(nworld)]
+    return xml, mjm, qs, [f"{kind}scene:{t1}-{t2}", "flags:" + case["flags"], "cone:" + opts["cone"]]
   if kind == "crowd":
     n = int(rng.integers(8, 15))
     types = ["sphere", "capsule", "ellipsoid", "cylinder", "box", "mesh"]
